@@ -107,3 +107,9 @@ impl HeuristicSearchOperator for CompositeHeuristicOperator {
         new_solution.unwrap_or_else(|| solution.deep_copy())
     }
 }
+
+/// Verification hook: re-exports crate-private search utilities (removal tracker, tabu list, selection helpers).
+#[cfg(reinterpretcat_vrp_verif)]
+pub mod verif {
+    pub use super::utils::*;
+}
